@@ -26,8 +26,9 @@ def needs_sep(a, b, lang='C'):
 
 
 class Renderer:
-    def __init__(self, rng, lang='C', style=None):
+    def __init__(self, rng, lang='C', style=None, indent_rng=None):
         self.rng = rng
+        self.indent_rng = indent_rng or rng      # a separate stream lets two renderings differ in indentation only
         self.lang = lang
         self.st = dict(DEFAULT_STYLE)
         if style:
@@ -102,19 +103,21 @@ class Renderer:
             cur = ''
             prev = None
 
+        irng = self.indent_rng
+
         def indent(depth):
             m = stl['indent']
             if m == 'none':
                 return ''
             if m == 'canon':
                 return '    ' * depth
-            r = rng.random()
+            r = irng.random()
             if r < 0.3:
-                return ' ' * rng.randint(0, 20)
+                return ' ' * irng.randint(0, 20)
             if r < 0.5:
-                return '\t' * rng.randint(0, 4)
+                return '\t' * irng.randint(0, 4)
             if r < 0.6:
-                return ' ' * rng.randint(1, 3) + '\t' + ' ' * rng.randint(0, 3)
+                return ' ' * irng.randint(1, 3) + '\t' + ' ' * irng.randint(0, 3)
             return '    ' * depth
 
         for idx, t in enumerate(toks):
@@ -220,6 +223,6 @@ class Renderer:
         return text
 
 
-def render(toks, rng, lang='C', style=None):
-    r = Renderer(rng, lang, style)
+def render(toks, rng, lang='C', style=None, indent_rng=None):
+    r = Renderer(rng, lang, style, indent_rng)
     return r.render(toks), r
